@@ -6,7 +6,7 @@ import AiocoapModel.Oscore.Inner
 /-!
 `CanProtect.protect` with `_split_message` / `_build_new_nonce` / `new_sequence_number`
 (oscore.py:981-1221) and `CanUnprotect.unprotect` with `_extract_encrypted0`
-(oscore.py:1239-1443, 1510-1518) for a plain (non-group) security context, and
+(oscore.py:1239-1450, 1518-1526) for a plain (non-group) security context, and
 `RequestIdentifiers` (oscore.py:168-195).
 
 Not modelled (answered `outOfModel`): Group OSCORE (signatures, pairwise mode), deterministic
@@ -211,8 +211,12 @@ def selectPiv (B : Ctx) (rid : Option ReqId) (code : Nat) (u : Unprot) : Except 
 Partial IV / request identifier selection, AAD and nonce.  (`tagBytes` is `alg_aead.tag_bytes`
 for the "Ciphertext too short" check.) -/
 def recvParams (tagBytes : Nat) (B : Ctx) (rid : Option ReqId) (o : Msg) : Except Err RecvParams :=
-  -- `assert (request_id is not None) == protected_message.code.is_response()`
-  if rid.isSome != isResponse o.code then .error .outOfModel else
+  -- the outer code is unprotected: a code that does not fit the presence of request identifiers,
+  -- or a request code other than POST / FETCH, is a `ProtectionInvalid` before anything else is
+  -- looked at (oscore.py:1247-1255, after the round-4 `fix:`; formerly an `assert` and a bare
+  -- `ValueError` from `CodeStyle.from_request`)
+  if rid.isSome != isResponse o.code then .error .protectionInvalid else
+  if !isResponse o.code && !(o.code == 2 || o.code == 5) then .error .protectionInvalid else
   match findOpt 9 o.opts with
   | none => .error .notProtected
   | some option =>
